@@ -62,6 +62,8 @@ class Check:
             if not plan:
                 raise ToolFailure("replay case %s is not in the plan for seed %d tier %s" % (want, ctx.seed, ctx.tier))
         cfgs = self.configs(ctx)
+        if os.environ.get("VERIF_CFGS"):                    # experimentation only: override the configuration list
+            cfgs = os.environ["VERIF_CFGS"].split(",")
         if ctx.replay and ctx.replay.get("cfg") in cfgs:
             cfgs = [ctx.replay["cfg"]]
         log("%s: plan %d cases, %d configurations" % (self.prop, len(plan), len(cfgs)))
